@@ -346,6 +346,14 @@ func init() {
 	reg("github.com/google/uuid.NewRandom", func(c *Ctx, fn *ssa.Function, a []Value) Value {
 		return TupleV{newUUID(c), IfaceV{}}
 	})
+	// runtime/pprof labels are profiling metadata: Do just runs the function
+	reg("runtime/pprof.Do", func(c *Ctx, fn *ssa.Function, a []Value) Value {
+		c.callValue(a[2], []Value{a[0]}, nil)
+		return nil
+	})
+	reg("runtime/pprof.Labels", func(c *Ctx, fn *ssa.Function, a []Value) Value {
+		return c.zero(fn.Signature.Results().At(0).Type())
+	})
 	// sort.Slice / sort.SliceStable: the reflection-based element swapper is provided by the engine, the sorting
 	// algorithm itself (pdqsort_func / stable_func) is the real one, interpreted from source
 	sortSlice := func(algo string) intrinsic {
